@@ -374,7 +374,7 @@ func c13Hostile(c *vf.Ctx) {
 	if !c.Active(sub) {
 		return
 	}
-	n := c.N(30000, 2000000)
+	n := c.N(30000, 5000000)
 	for i := 0; i < n; i++ {
 		if !c.Mine(sub, i) {
 			continue
